@@ -17,13 +17,41 @@ def _normal(p):
     return not any(e.d.get("raised") for e in p.trace) and p.outcome != "raise"
 
 
+def _pipe_chain(t):
+    """(root, [stage terms]) of  root.pipe(a).pipe(b, c)"""
+    stages = []
+    while t[0] == "mcall" and t[2] == "pipe":
+        stages = [a for a in t[3] if a[0] != "kw"] + stages
+        t = t[1]
+    return t, stages
+
+
+def _stage_name(t):
+    if t[0] == "call" and t[1][0] == "glob":
+        return t[1][1]
+    if t[0] == "call" and t[1][0] == "func":
+        return "%s.%s" % (t[1][2].name, t[1][1].name)
+    return show(t)[:40]
+
+
 def rule_tm123(ctx: Ctx) -> RuleResult:
+    from .tee import tee_model
+    from ..loader import dotted_name
     r = RuleResult("TM-1..3", "tee_map: one published source shared by all branches, connected after every branch is subscribed")
+    factories = set()
+    connect_params = set()
     # TM-1 in both subscribe functions
     for suffix, knd in (("_process_many.subscribe_mux", "mux"), ("_process_many.subscribe", "create")):
         site = ctx.site(REL, suffix, kind=knd)
         r.instances += 1
         m = site.module
+        tm = tee_model(ctx, site)
+        top = site.subscribe_fn
+        while m.enclosing_function(top) is not None:
+            top = m.enclosing_function(top)
+        factories.add(top)
+        r.ob(tm.problem is None, lambda: Finding("TM-1", "%s{branch-subscription}" % site.name, m.where(site.subscribe_fn),
+                                                 "every subscription must be made on one branch of the tee: %s" % tm.problem))
         for p in ctx.fn_paths(m, site.subscribe_fn, roles=site.roles, max_iter=2):
             r.paths += 1
             seq = [e for e in p.trace if e.k == "call" and e.d.get("method") in ("subscribe", "subscribe_", "connect")]
@@ -35,82 +63,126 @@ def rule_tm123(ctx: Ctx) -> RuleResult:
                                      "(a branch subscribed after connect() misses the first events); order on this path: %s" % [e.method for e in seq], trace_of(p)))
             if conns:
                 c = seq[conns[0]]
-                r.ob(c.base[0] == "param" and c.base[1] == "connectable", lambda: Finding(
-                    "TM-1", "%s{connect-target}" % site.name, c.where(), "connect() is called on %s instead of the shared connectable" % show(c.base)))
-            # every branch subscribed: loop over range(n), n = len(sources), subscribing sources[i]
-            loops = [e for e in p.trace if e.k == "loopiter"]
+                r.ob(c.base[0] == "param", lambda: Finding(
+                    "TM-1", "%s{connect-target}" % site.name, c.where(), "connect() is called on %s instead of the shared connectable handed to the join" % show(c.base)))
+                if c.base[0] == "param":
+                    connect_params.add(c.base[1])
+            if tm.problem is not None:
+                continue
+            # every branch subscribed: the loop / comprehension that subscribes runs once per branch
+            loops = {e.loop: e for e in p.trace if e.k == "loopiter"}
             for e in seq:
                 if e.method in ("subscribe", "subscribe_"):
-                    b = e.base
-                    loops_ = {x.loop: x.iter for x in p.trace if x.k == "loopiter"}
-                    ok = b[0] == "sub" and b[1][0] == "free" and b[1][1] == "sources" and b[2][0] == "loopvar"
-                    # for i, source in enumerate(sources) / for source in sources
-                    if not ok and b[0] == "sub" and b[1][0] == "loopvar" and b[2] == ("const", 1):
-                        it_ = loops_.get(b[1][1])
-                        ok = it_ is not None and it_[0] == "call" and it_[1] == ("builtin", "enumerate") and it_[2] and it_[2][0][0] == "free" and it_[2][0][1] == "sources"
-                    if not ok and b[0] == "loopvar":
-                        it_ = loops_.get(b[1])
-                        ok = it_ is not None and it_[0] == "free" and it_[1] == "sources"
+                    ok = tm.element_of(e.base, loops, e.d.get("comp_iters")) == tm.branches
                     r.ob(ok, lambda e=e: Finding("TM-1", "%s{branch-subscription}" % site.name, e.where(),
-                                                 "a subscription is made on %s instead of sources[<branch index>]" % show(e.base)))
-            for e in loops:
-                it = e.iter
-                ok = it is not None and it[0] == "call" and it[1] == ("builtin", "range") and len(it[2]) == 1 and \
-                    it[2][0][0] == "call" and it[2][0][1] == ("builtin", "len") and it[2][0][2][0][0] == "free" and it[2][0][2][0][1] == "sources"
-                ok = ok or (it is not None and it[0] == "call" and it[1] == ("builtin", "enumerate") and it[2] and it[2][0][0] == "free" and it[2][0][1] == "sources")
-                ok = ok or (it is not None and it[0] == "free" and it[1] == "sources")
-                r.ob(ok, lambda e=e: Finding("TM-1", "%s{all-branches}" % site.name, e.where(),
-                                             "the subscription loop runs over %s instead of all len(sources) branches" % show(e.iter)))
-    # TM-2 / TM-3 in tee_map._tee_map
-    m, fn = ctx.function(REL, "tee_map._tee_map")
+                                                 "a subscription is made on %s instead of a branch of the loop over all branches" % show(e.base)))
+                    for target, it in (e.d.get("comp_iters") or ()):
+                        r.ob(tm.over_all_branches(it), lambda e=e, it=it: Finding(
+                            "TM-1", "%s{all-branches}" % site.name, e.where(), "the subscriptions run over %s instead of all branches" % show(it)))
+            for e in loops.values():
+                inner = [x for x in p.trace if x.k == "call" and x.d.get("method") in ("subscribe", "subscribe_") and not x.d.get("in_comp")]
+                if not inner:
+                    continue
+                r.ob(tm.over_all_branches(e.iter), lambda e=e: Finding("TM-1", "%s{all-branches}" % site.name, e.where(),
+                                                                       "the subscription loop runs over %s instead of all branches" % show(e.iter)))
+    # TM-2 / TM-3 in the function that builds the join: it calls the factory of the two sites
+    if len(factories) != 1 or len(connect_params) != 1:
+        raise AnalysisError("tee_map: the two joins are not built by one factory connecting one parameter (%d factories, parameters %s)" % (
+            len(factories), sorted(connect_params)))
+    factory = next(iter(factories))
+    cparam = next(iter(connect_params))
+    m = ctx.program.module(REL)
+    callers = []
+    for n in ast.walk(m.tree):
+        if isinstance(n, ast.Call) and isinstance(n.func, ast.Name) and n.func.id == factory.name and m.enclosing_function(n) is not None:
+            callers.append((m.enclosing_function(n), n))
+    if len(callers) != 1:
+        raise AnalysisError("tee_map: expected one call of %s, found %d" % (factory.name, len(callers)))
+    fn, call_node = callers[0]
     r.instances += 1
-    paths = ctx.fn_paths(m, fn, inline=False)
+    fpos = [a.arg for a in factory.args.posonlyargs + factory.args.args]
+    src_param = ("arg", m.scopes[fn].params[0]) if m.scopes[fn].params else None
     arms = {}
-    for p in paths:
+    for p in ctx.fn_paths(m, fn, inline=False):
         r.paths += 1
-        d = [e for e in p.trace if e.k == "decision"]
-        if len(d) != 1 or d[0].test[0] != "call" or d[0].test[1] != ("builtin", "isinstance"):
-            raise AnalysisError("tee_map._tee_map: expected the single dispatch isinstance(source, rs.MuxObservable)")
+        if p.outcome != "return":
+            continue
+        d = [e for e in p.trace if e.k == "decision" and e.test[0] == "call" and e.test[1] == ("builtin", "isinstance")
+             and len(e.test[2]) == 2 and e.test[2][0] == src_param]
+        if len(d) != 1:
+            raise AnalysisError("tee_map: expected the single dispatch isinstance(source, rs.MuxObservable) on every path of %s" % m.scopes[fn].qualname)
         arm = "mux" if d[0].outcome else "plain"
-        conn = [e for e in p.trace if e.k == "assign" and e.name == "connectable"]
-        if len(conn) != 1:
-            raise AnalysisError("tee_map._tee_map: connectable is not assigned exactly once per arm")
-        c = conn[0].value
-        ok = c[0] == "mcall" and c[1] == ("arg", "source") and c[2] == "pipe" and len(c[3]) >= 1 and \
-            c[3][0][0] == "call" and c[3][0][1] == ("glob", "rx.operators.publish")
-        if arm == "mux":
-            ok = ok and len(c[3]) == 2 and c[3][1][0] == "call" and c[3][1][1][0] == "func" and c[3][1][1][1].name == "cast_as_mux_connectable"
-        else:
-            ok = ok and len(c[3]) == 1
-        r.ob(ok, lambda arm=arm, c=c: Finding("TM-3", "%s::tee_map._tee_map{publish-%s}" % (REL, arm), m.where(conn[0].node),
-                                              "the shared source of the %s arm must be source.pipe(ops.publish()%s); it is %s" % (
-                                                  arm, ", rs.cast_as_mux_connectable()" if arm == "mux" else "", show(c))))
         v = p.value
-        ok = v is not None and v[0] == "call" and v[1][0] == "func" and v[1][1].name == "_process_many"
+        ok = v is not None and v[0] == "call" and v[1] == ("func", factory, m)
+        c = None
         if ok:
             kws = {a[1]: a[2] for a in v[2] if a[0] == "kw"}
-            ok = kws.get("connectable") == c
-            stars = [a for a in v[2] if a[0] == "star"]
-            ok = ok and len(stars) == 1 and stars[0][1][0] == "comp" and c in stars[0][1][2]
+            plain = [a for a in v[2] if a[0] not in ("kw", "star")]
+            c = kws.get(cparam)
+            if c is None and cparam in fpos and fpos.index(cparam) < len(plain) and not [a for a in v[2] if a[0] == "star"]:
+                c = plain[fpos.index(cparam)]
+        r.ob(c is not None, lambda: Finding("TM-2", "%s::tee_map._tee_map{same-connectable}" % REL, m.where(fn),
+                                            "the join must be built by %s(..., %s=<the shared source>); the call is %s" % (factory.name, cparam, show(v) if v else None)))
+        if c is None:
+            continue
+        root, stages = _pipe_chain(c)
+        names = [_stage_name(t) for t in stages]
+        want = ["rx.operators.publish"] + (["rxsci.mux.muxconnectable.cast_as_mux_connectable"] if arm == "mux" else [])
+        r.ob(root == src_param and names == want, lambda arm=arm, c=c: Finding(
+            "TM-3", "%s::tee_map._tee_map{publish-%s}" % (REL, arm), m.where(call_node),
+            "the shared source of the %s arm must be source.pipe(ops.publish()%s); it is %s" % (
+                arm, ", rs.cast_as_mux_connectable()" if arm == "mux" else "", show(c))))
+        # every branch operator applied to that very connectable
+        stars = [a for a in v[2] if a[0] == "star"]
+        ok = len(stars) == 1 and stars[0][1][0] == "comp" and len(stars[0][1]) >= 5
+        if ok:
+            elt, iters = stars[0][1][3], stars[0][1][4]
+            ok = elt[0] == "call" and elt[1][0] == "compvar" and tuple(elt[2]) == (c,) and len(iters) == 1 and _all_operators(ctx, m, fn, iters[0])
         r.ob(ok, lambda: Finding("TM-2", "%s::tee_map._tee_map{same-connectable}" % REL, m.where(fn),
-                                 "every branch must be built on the very connectable that _process_many connects; the call is %s" % (show(v) if v else None)))
+                                 "every branch must be built on the very connectable that %s connects, one branch per operator given to tee_map; the call is %s" % (
+                                     factory.name, show(v) if v else None)))
         arms[arm] = True
-    # the comprehension applies each branch operator to the connectable
-    comps = [n for n in ast.walk(fn) if isinstance(n, ast.ListComp)]
-    ok = len(comps) == 1 and isinstance(comps[0].elt, ast.Call) and isinstance(comps[0].elt.func, ast.Name) and \
-        isinstance(comps[0].generators[0].target, ast.Name) and comps[0].elt.func.id == comps[0].generators[0].target.id and \
-        [ast.unparse(a) for a in comps[0].elt.args] == ["connectable"] and ast.unparse(comps[0].generators[0].iter) == "args" and \
-        not comps[0].generators[0].ifs
-    r.ob(ok, lambda: Finding("TM-2", "%s::tee_map._tee_map{branches}" % REL, m.where(fn),
-                             "the branch list must be [arg(connectable) for arg in args] (every branch, each applied to the shared source)"))
     r.ob(set(arms) == {"mux", "plain"}, lambda: Finding("TM-3", "%s::tee_map._tee_map{arms}" % REL, m.where(fn), "one of the two arms vanished"))
     r.require_instances(3)
     return r
 
 
+def _all_operators(ctx, m, fn, it):
+    """the iterable is the tuple of all operators given to tee_map: its *args, or a list computed from each of them"""
+    def is_varargs(t):
+        if t[0] not in ("param", "arg"):
+            return False
+        f = fn
+        while f is not None:
+            if isinstance(f, ast.FunctionDef) and f.args.vararg is not None and f.args.vararg.arg == t[1]:
+                return True
+            f = m.enclosing_function(f)
+        return False
+    if is_varargs(it):
+        return True
+    if it[0] == "comp" and len(it) >= 5 and len(it[4]) == 1 and is_varargs(it[4][0]):
+        return " if " not in it[1].split(" for ")[-1]
+    if it[0] == "free":
+        # branches = [normalise(arg) for arg in args] in an enclosing scope
+        f = fn
+        while f is not None:
+            if m.scopes[f].qualname == it[2]:
+                vals = [n.value for n in ast.walk(f) if isinstance(n, ast.Assign) and m.enclosing_function(n) is f
+                        and any(isinstance(x, ast.Name) and x.id == it[1] for x in n.targets)]
+                if len(vals) == 1 and isinstance(vals[0], ast.ListComp) and len(vals[0].generators) == 1 and not vals[0].generators[0].ifs:
+                    g = vals[0].generators[0]
+                    return isinstance(g.iter, ast.Name) and is_varargs(("param", g.iter.id))
+                if len(vals) == 1 and isinstance(vals[0], ast.Call) and isinstance(vals[0].func, ast.Name) and vals[0].func.id in ("list", "tuple") \
+                        and len(vals[0].args) == 1 and isinstance(vals[0].args[0], ast.Name):
+                    return is_varargs(("param", vals[0].args[0].id))
+                return False
+            f = m.enclosing_function(f)
+    return False
+
+
 # ----------------------------------------------------------------------
-def _slice_of_key(t, n_name="n"):
-    """Is t == <table>[key[0]*n : key[0]*n + n] ?  returns table name"""
+def _slice_of_key(t, is_count):
+    """Is t == <table>[key[0]*n : key[0]*n + n] (n the number of branches)?  returns table name"""
     if t[0] != "sub" or t[1][0] != "free" or t[2][0] != "slice":
         return None
     lo, hi = t[2][1], t[2][2]
@@ -118,9 +190,11 @@ def _slice_of_key(t, n_name="n"):
     if li is None or li[0] != "scaled" or li[2] != ("const", 0):
         return None
     D = li[1]
-    if D[0] != "free" or D[1] != n_name:
+    if not is_count(D):
         return None
-    if hi != ("binop", "Add", lo, D):
+    from .linear import diff
+    dd = diff(hi, lo) if hi is not None else None
+    if dd is None or dict(dd[0]) != {D: 1} or dd[1] != 0:
         return None
     return t[1][1]
 
@@ -135,6 +209,8 @@ def rule_tm4(ctx: Ctx):
     pspec = psite.handler_specs("on_next")[0]
     branch = next(iter(spec.bound.values()))
     pbranch = next(iter(pspec.bound.values()))
+    from .tee import tee_model
+    tm, ptm = tee_model(ctx, site), tee_model(ctx, psite)
     r.instances += 1
     ra.instances += 1
     space = ctx.space(spec)
@@ -166,14 +242,14 @@ def rule_tm4(ctx: Ctx):
             FN = wf[0].base[1] if wf else None
             def own_slot(e):
                 li = linear_index(e.index)
-                return li is not None and li[0] == "scaled" and li[1][0] == "free" and li[1][1] == "n" and li[2] == branch
+                return li is not None and li[0] == "scaled" and tm.is_count(li[1]) and li[2] == branch
             ok = len(wq) == 1 and own_slot(wq[0]) and wq[0].value == EVITEM and len(wf) == 1 and own_slot(wf[0]) and wf[0].value == ("const", True)
             r.ob(ok, lambda: mk_finding("TM-4", spec, "Next", cfg, p,
                                         "a branch item must be stored in the branch's own slot key[0]*n + branch (value and has_next flag); writes: %s" % [e.brief() for e in data_writes], extra="slot"))
             fired = bool(ems)
             if mode == "zip":
                 gate = [e for e in p.trace if e.k == "decision" and e.test[0] == "call" and e.test[1] == ("builtin", "all")]
-                ok = len(gate) == 1 and FN is not None and _slice_of_key(gate[0].test[2][0]) == FN
+                ok = len(gate) == 1 and FN is not None and _slice_of_key(gate[0].test[2][0], tm.is_count) == FN
                 r.ob(ok, lambda: mk_finding("TM-4", spec, "Next", cfg, p, "zip must fire on all(has_next[key slice of n flags]); gate: %s" % [show(e.test) for e in gate], extra="zip-gate"))
                 if ok:
                     r.ob(gate[0].outcome == fired, lambda: mk_finding("TM-4", spec, "Next", cfg, p, "zip emission does not follow its gate: %s" % summary(p), extra="zip-fire"))
@@ -182,7 +258,7 @@ def rule_tm4(ctx: Ctx):
             if fired:
                 ok = len(ems) == 1 and ems[0].event is not None and ems[0].event.kind == "Next" and ems[0].event.keyclass == SAME
                 pay = ems[0].event.payload if ok else None
-                ok = ok and pay[0] == "call" and pay[1] == ("builtin", "tuple") and QN is not None and _slice_of_key(pay[2][0]) == QN
+                ok = ok and pay[0] == "call" and pay[1] == ("builtin", "tuple") and QN is not None and _slice_of_key(pay[2][0], tm.is_count) == QN
                 r.ob(ok, lambda: mk_finding("TM-4", spec, "Next", cfg, p,
                                             "the joined item must be tuple(queue[key slice of n values]) for the event's key; emitted: %s" % (show(pay) if pay else summary(p)), extra="tuple"))
                 if mode == "zip":
@@ -190,7 +266,7 @@ def rule_tm4(ctx: Ctx):
                     loops = {e.loop: e.iter for e in p.trace if e.k == "loopiter"}
                     def all_slots(e):
                         li = linear_index(e.index, loops)
-                        if li is None or li[0] != "scaled" or not (li[1][0] == "free" and li[1][1] == "n"):
+                        if li is None or li[0] != "scaled" or not tm.is_count(li[1]):
                             return False
                         if li[2] == ("fullrange", li[1]):
                             return True
@@ -229,7 +305,17 @@ def rule_tm4(ctx: Ctx):
                     ra.ob(ok, lambda: mk_finding("AG-3", pspec, None, pcfg, p, "plain zip must fire exactly when all(has_next)", extra="zip-gate"))
                     if fired:
                         cf = [e for e in p.trace if e.k == "substore" and e.base[0] == "free" and e.base[1] == PFN and e.value == ("const", False)]
-                        ra.ob(bool(cf) and all(e.index[0] == "loopvar" for e in cf), lambda: mk_finding(
+
+                        def whole(e):
+                            # flags[:] = [False] * n
+                            if e.k != "substore":
+                                return False
+                            v = e.value
+                            return e.base[0] == "free" and e.base[1] == PFN and e.index == ("slice", None, None) \
+                                and v[0] == "binop" and v[1] == "Mult" and any(x == ("list", ("const", False)) for x in (v[2], v[3])) \
+                                and any(ptm.is_count(x) for x in (v[2], v[3]))
+                        cf_all = [e for e in p.trace if whole(e)]
+                        ra.ob(bool(cf_all) or (bool(cf) and all(e.index[0] == "loopvar" for e in cf)), lambda: mk_finding(
                             "AG-3", pspec, None, pcfg, p, "plain zip must clear all has_next flags after firing", extra="zip-clear"))
                 plain_sk.add((mode, "fire" if fired else "wait"))
         ra.groups.add(("tee_map siblings", mode))
@@ -255,6 +341,8 @@ def rule_tm5(ctx: Ctx) -> RuleResult:
     site = ctx.site(REL, "_process_many.subscribe_mux", kind="mux")
     spec = site.handler_specs("on_next")[0]
     branch = next(iter(spec.bound.values()))
+    from .tee import tee_model
+    tm = tee_model(ctx, site)
     r.instances += 1
     grew = False
     for cfg in valuations(ctx.space(spec)):
@@ -279,7 +367,7 @@ def rule_tm5(ctx: Ctx) -> RuleResult:
             if cnt is not None:
                 q = rf(strip_uid(cnt))
                 n = RF(Poly.atom(("free", "n", site.short)))
-                n_atoms = [x for x in subterms(cnt) if x[0] == "free" and x[1] == "n"]
+                n_atoms = [x for x in subterms(cnt) if tm.is_count(x)]
                 from .st import join_tables
                 tables = join_tables(ctx, spec)
                 lens = [x for x in subterms(strip_uid(cnt)) if x[0] == "call" and x[1] == ("builtin", "len") and x[2][0][0] == "free" and x[2][0][1] in tables]
